@@ -45,6 +45,18 @@ Theorem make_contractions_spec :
 Proof. exact (@mc_spec). Qed.
 Print Assumptions make_contractions_spec.
 
+(* ... and the call does return for valid arguments: as many rows as atoms, every atom in the dict, one
+   valid type per shell (list or tuple) or one valid string *)
+Theorem make_contractions_accepts :
+  forall (C : Type) (d : dict) (atoms : list string) (coords : list C) (ct : ctypes) (n : nat),
+  List.length atoms = List.length coords ->
+  total_shells d atoms = Some n ->
+  List.length (expand ct n) = n -> Forall valid_type (expand ct n) ->
+  (match ct with CStr s => valid_type s | _ => True end) ->
+  exists res, fst (make_contractions_model (d, atoms, coords, ct)) = Some res.
+Proof. exact (@mc_accepts). Qed.
+Print Assumptions make_contractions_accepts.
+
 (* the four argument objects are, after the call, what they were before; hence a second call with the
    same objects gives the same result; a tuple is treated as the list with the same entries *)
 Theorem args_untouched :
